@@ -113,6 +113,36 @@ enum {
   MYTH_VP_TIMEDJOIN_TRY = 2002   /* a tryjoin attempt of myth_timedjoin_body; a = target, v = 0 (joined) / 1 (busy) */
 };
 
+/* spin lock, fences and work-stealing queue points (C02) */
+enum {
+  /* spin lock (myth_spinlock_func.h): a = lock */
+  MYTH_VP_SPIN_CAS    = 200,  /* after the trylock CAS; v = 1 acquired / 0 failed */
+  MYTH_VP_SPIN_UNLOCK = 201,  /* after the releasing store */
+  MYTH_VP_SPIN_WAIT   = 202,  /* MYTH_VERIF_SPIN: one failed iteration of myth_spin_lock_body */
+  /* memory barriers (myth_mem_barrier_func.h): v = 1 hardware fence / 0 compiler barrier only */
+  MYTH_VP_FENCE_R  = 205,
+  MYTH_VP_FENCE_W  = 206,
+  MYTH_VP_FENCE_RW = 207,
+
+  /* work-stealing queue (myth_wsqueue_func.h, myth_if_native.c): a = queue, b = thread, v = value
+     read / written.  One point after every shared access; names = program counters of the model
+     lean/MythVerif/Model/WsQueue.lean */
+  MYTH_VP_WSQ_PU0 = 210, MYTH_VP_WSQ_PUB, MYTH_VP_WSQ_PUM, MYTH_VP_WSQ_PUS, MYTH_VP_WSQ_PUV,
+  MYTH_VP_WSQ_PU1, MYTH_VP_WSQ_PU2,
+  MYTH_VP_WSQ_PQ = 220, MYTH_VP_WSQ_PO1, MYTH_VP_WSQ_PO2, MYTH_VP_WSQ_PO3, MYTH_VP_WSQ_PO4,
+  MYTH_VP_WSQ_PO5, MYTH_VP_WSQ_PO5B, MYTH_VP_WSQ_PO5C, MYTH_VP_WSQ_PO5D, MYTH_VP_WSQ_PO7, MYTH_VP_WSQ_PO8,
+  MYTH_VP_WSQ_PT1 = 235, MYTH_VP_WSQ_PT2, MYTH_VP_WSQ_PT3, MYTH_VP_WSQ_PT4, MYTH_VP_WSQ_PT5,
+  MYTH_VP_WSQ_PT7, MYTH_VP_WSQ_PT8,
+  MYTH_VP_WSQ_CL1 = 245, MYTH_VP_WSQ_CL2,
+  MYTH_VP_WSQ_TQ0 = 250, MYTH_VP_WSQ_TQ1, MYTH_VP_WSQ_TK1, MYTH_VP_WSQ_TK2, MYTH_VP_WSQ_TK3, MYTH_VP_WSQ_TK5,
+  MYTH_VP_WSQ_WQ0 = 260, MYTH_VP_WSQ_WQ1, MYTH_VP_WSQ_WK1, MYTH_VP_WSQ_WK2, MYTH_VP_WSQ_WK3, MYTH_VP_WSQ_WKD,
+  MYTH_VP_WSQ_WK4, MYTH_VP_WSQ_WK5,
+  MYTH_VP_WSQ_TP1 = 270, MYTH_VP_WSQ_TP2, MYTH_VP_WSQ_TP3,
+  MYTH_VP_WSQ_KQ0 = 275, MYTH_VP_WSQ_KQ1, MYTH_VP_WSQ_PK1, MYTH_VP_WSQ_PK2, MYTH_VP_WSQ_PK3,
+  MYTH_VP_WSQ_VQ0 = 280, MYTH_VP_WSQ_VQ1, MYTH_VP_WSQ_VC0, MYTH_VP_WSQ_VC1, MYTH_VP_WSQ_VK1, MYTH_VP_WSQ_VK2,
+  MYTH_VP_WSQ_VK3, MYTH_VP_WSQ_VK4, MYTH_VP_WSQ_VK5, MYTH_VP_WSQ_VR, MYTH_VP_WSQ_VSPIN
+};
+
 #ifdef MYTH_VERIF
 
 #ifdef __cplusplus
